@@ -738,17 +738,17 @@ func enumerateKind(ctx *seq.Ctx, kind string) {
 		pfx, ck = kind+":", kind
 	}
 	for _, mode := range []string{"spill-at-accept", "save-at-shutdown", "hand-back"} {
-		sizes := []int{1, 2, 3, 5, 8}
-		if ctx.Thorough() {
-			sizes = []int{1, 2, 3, 4, 5, 8, 13}
-			if kind != "plain" {
-				sizes = []int{1, 3, 8} // the real names change which files the matcher accepts, not the byte-level write path
-			}
-		} else if kind != "plain" {
-			sizes = []int{3}
+		// quick: every size of the small menu in all three modes (2 s); thorough: every size 1..9 and the sizes around 16, 32, 64, 256, 1024 and
+		// 100 bytes — every byte offset of every one of them is a limit, a short-write length, a close-keeps length and a crash point
+		sizes := []int{1, 2, 3, 4, 5, 8, 13}
+		if kind != "plain" {
+			sizes = []int{1, 3, 8} // the real names change which files the matcher accepts, not the byte-level write path
 		}
-		if mode != "spill-at-accept" && !ctx.Thorough() {
-			sizes = []int{3}
+		if ctx.Thorough() {
+			sizes = []int{1, 2, 3, 4, 5, 6, 7, 8, 9, 13, 16, 17, 31, 32, 33, 64, 100, 255, 256, 257, 1024}
+			if kind != "plain" {
+				sizes = []int{1, 3, 8, 17}
+			}
 		}
 		for _, size := range sizes {
 			for pos := 0; pos < 3; pos++ {
@@ -880,7 +880,7 @@ func main() {
 	seq.Main(&seq.Config{
 		Property: "C04",
 		Level:    "fault_enumeration",
-		Rule: "for chunk sizes {1,2,3,5,8} (thorough +4,13) x position of the affected chunk {first, middle, last} x {spilled at Accept, saved at shutdown}: every byte offset k at which the file write stops " +
+		Rule: "for chunk sizes {1,2,3,4,5,8,13} (thorough 1..9,13,16,17,31,32,33,64,100,255,256,257,1024) x position of the affected chunk {first, middle, last} x {spilled at Accept, saved at shutdown}: every byte offset k at which the file write stops " +
 			"(space/size limit: short write then ENOSPC; k=0: ENOSPC/EFBIG/EIO), an I/O error at open/close/rename/fsync, and process death before every syscall of the file's write path and after every k bytes of every write; " +
 			"then restart on the resulting directory with a strict consumer; plus zero-length / foreign-name / directory entries at startup; non-trivial = every case (each injects at a point the baseline run showed to exist)",
 		Assumptions: []string{
